@@ -64,7 +64,7 @@ def mutation_sites(b):
 def err_variant(b, bi):
     """Variant name of the Error aggregate assigned as Err in block bi."""
     for st in b.blocks[bi]["stmts"]:
-        if st["k"] == "assign" and st["pl"]["l"] == 0 and st["rv"]["k"] == "agg" and st["rv"].get("variant") == "Err":
+        if st["k"] == "assign" and st["pl"]["l"] in b.err_places() and not st["pl"]["p"] and st["rv"]["k"] == "agg" and st["rv"].get("variant") == "Err":
             t = b.term_operand(st["rv"]["ops"][0])
             if t[0] == "agg":
                 return t[2].split("::")[-1]
@@ -258,6 +258,11 @@ def rule_R2(ctx, f):
                         if cl and local_map in caps:
                             cg = cl.calls_to("HashMap::get")
                             fallback = len(cg) == 1
+                        elif cl:
+                            # the closure captures the struct local that holds the map and looks the name up in that field
+                            from pvrules.rules import subst_captures
+                            cg = cl.calls_to("HashMap::get")
+                            fallback = len(cg) == 1 and peel(subst_captures(cg[0].args[0], a[3])) == local_map
                     elif is_call(peel(a, transparent=[]), "HashMap::get") and peel(peel(a, transparent=[])[2][0]) == local_map:
                         fallback = True
             for c in b.calls_to(["HashMap::get", "HashMap::contains_key"]):
@@ -278,13 +283,14 @@ def rule_R2(ctx, f):
             okid = len(was) == 1 and b.dominates(be[1], was[0].bb) and count_range(b, [was[0].bb])[1] != 0
             acc = None
             if len(was) == 1:
-                acc = [a for a in was[0].args if a[0] == "var"]
+                # the accumulator: a local, or a field of a struct local that bundles the state of this call
+                acc = [a for a in was[0].args if a[0] == "var" or (len(a) == 3 and a[0] == "field" and a[1][0] == "var" and _desc_elem(b, a) is None)]
                 # every access to collectors_by_id in register is keyed by the accumulated id (entry(id), or contains_key(&id) + insert(id, c))
                 ents = [c for c in b.calls_to(["HashMap::entry", "HashMap::contains_key", "HashMap::insert", "HashMap::get"]) if peel(c.args[0]) == SELF_FIELD("collectors_by_id")]
                 okid = okid and len(acc) == 1 and len(ents) >= 1 and all(peel(c.args[1]) == acc[0] for c in ents)
                 if okid:
-                    alts = b.var_alts(acc[0][1])
-                    okid = any(a == was[0].result_term() for a in alts) and any(a[0] == "const" and a[3] == "0" for a in alts) and len(alts) == 2
+                    alts = b.place_alts(acc[0])
+                    okid = any(a == was[0].result_term() for a in alts) and any((a[0] == "const" and a[3] == "0") or is_call(a, "<u64 as std::default::Default>::default") for a in alts) and len(alts) == 2
             ctx.ob(rid, "register|collector-id", okid, "the collector id must be 0 + the wrapping sum of exactly the ids newly inserted into the local set, and be the key of collectors_by_id.entry()", site=ins[0].span)
     ctx.ob(rid, "register|check-c-dup", okc, "a descriptor id repeated within the collector must return Err (false edge of the local-set insert)", site=ins[0].span if ins else b.raw["span"]["at"])
     # unregister sibling
@@ -417,7 +423,7 @@ def rule_R3(ctx, f):
         by_field.setdefault(fld, []).append(c)
     ids_local = [peel(c.args[0]) for c in b.calls_to("HashSet::insert") if self_field_of(c.args[0]) is None]
     ext = by_field.get("desc_ids", [])
-    ok = len(ext) == 1 and hasattr(ext[0], "bb") and b.dominates(vac, ext[0].bb) and bool(ids_local)
+    ok = len(ext) == 1 and hasattr(ext[0], "bb") and b.dominates_ps(vac, ext[0].bb) and bool(ids_local)
     if ok and ext[0].matches(["Extend::extend", "HashSet::extend"]):
         ok = peel(ext[0].args[1]) == ids_local[0]
     elif ok and ext[0].matches("HashSet::insert"):
@@ -436,12 +442,12 @@ def rule_R3(ctx, f):
     ctx.ob(rid, "register|commit-ids", ok, "on success desc_ids must receive exactly the local id set (extend, or an unconditional insert of every element) (found %s)" % [show(c.args[1]) if hasattr(c, "args") else c for c in ext],
            site=ext[0].span if ext and hasattr(ext[0], "span") else b.raw["span"]["at"])
     col = by_field.get("collectors_by_id", [])
-    ok = len(col) == 1 and hasattr(col[0], "bb") and col[0].matches(["VacantEntry::insert", "HashMap::insert"]) and b.dominates(vac, col[0].bb) and any(s == P2 for s in subterms(col[0].args[-1]))
+    ok = len(col) == 1 and hasattr(col[0], "bb") and col[0].matches(["VacantEntry::insert", "HashMap::insert"]) and b.dominates_ps(vac, col[0].bb) and any(s == P2 for s in subterms(col[0].args[-1]))
     ctx.ob(rid, "register|commit-collector", ok, "on success the collector passed in must be inserted into the vacant entry", site=col[0].span if col and hasattr(col[0], "span") else b.raw["span"]["at"])
     dims = by_field.get("dim_hashes_by_name", [])
     names_local = [peel(c.args[0]) for c in b.calls_to("HashMap::insert") if self_field_of(c.args[0]) is None] + \
         [peel(c.args[0]) for c in b.calls_to("HashMap::entry") if self_field_of(c.args[0]) is None and _desc_elem(b, c.args[1]) == "fq_name"]
-    ok = len(dims) == 1 and hasattr(dims[0], "bb") and b.dominates(vac, dims[0].bb) and names_local and \
+    ok = len(dims) == 1 and hasattr(dims[0], "bb") and b.dominates_ps(vac, dims[0].bb) and names_local and \
         (peel(dims[0].args[1]) == names_local[0] or _same_entries_owned(f, dims[0].args[1], names_local[0]))
     ctx.ob(rid, "register|commit-dims", ok, "on success dim_hashes_by_name must receive exactly the names collected during this call", site=dims[0].span if dims and hasattr(dims[0], "span") else b.raw["span"]["at"])
     if names_local:
